@@ -381,6 +381,7 @@ var c20Model = porcupine.Model{
 func c20ConcRun(cs c20ConcCase, ch vrt.Chooser, trace bool) (*world.World, *vrt.Exec, []*c20HistOp) {
 	var w *world.World
 	var hist []*c20HistOp
+	c20Leaks = nil
 	e := vrt.Run(vrt.Config{Horizon: int64(20 * time.Second), Race: true, Trace: trace, Chooser: ch}, func() {
 		w = world.New(libIP)
 		s := w.NewServer(libIP)
@@ -419,11 +420,18 @@ func c20ConcRun(cs c20ConcCase, ch vrt.Chooser, trace bool) (*world.World, *vrt.
 		}
 		if cs.Serve != "never" {
 			w.WaitServeDone()
+			// after Close and Serve returned nothing of corebgp may be left running: checked at a
+			// quiescent cut without clock advance (a peer that was never stopped keeps redialling)
+			vrt.WaitQuiescent()
+			for _, g := range vrt.Cur().LiveLib() {
+				c20Leaks = append(c20Leaks, g.Name()+"@"+g.PendingSite())
+			}
 		}
-		vrt.WaitQuiescent()
 	})
 	return w, e, hist
 }
+
+var c20Leaks []string
 
 func c20ConcJudge(cs c20ConcCase, w *world.World, e *vrt.Exec, hist []*c20HistOp) (string, string) {
 	var ops []porcupine.Operation
@@ -440,14 +448,8 @@ func c20ConcJudge(cs c20ConcCase, w *world.World, e *vrt.Exec, hist []*c20HistOp
 		}
 		return "not-linearizable", "the history of registry operations is not linearizable with respect to a map:" + sb.String()
 	}
-	if live := e.LiveLib(); len(live) > 0 && e.Reason() == vrt.EndQuiescent {
-		var names []string
-		for _, g := range live {
-			names = append(names, g.Name()+"@"+g.PendingSite())
-		}
-		if cs.Serve != "never" {
-			return "goroutine-leak", fmt.Sprintf("corebgp goroutines alive after Close and Serve returned: %v", names)
-		}
+	if len(c20Leaks) > 0 {
+		return "goroutine-leak", fmt.Sprintf("corebgp goroutines alive after Close and Serve returned: %v", c20Leaks)
 	}
 	return "", ""
 }
@@ -455,7 +457,7 @@ func c20ConcJudge(cs c20ConcCase, w *world.World, e *vrt.Exec, hist []*c20HistOp
 func c20ConcCases(th bool) []c20ConcCase {
 	var out []c20ConcCase
 	pairs := [][]c20Op{
-		{{"add", "A"}}, {{"addalt", "A"}}, {{"del", "A"}}, {{"get", "A"}}, {{"list", ""}},
+		{{"add", "A"}}, {{"addalt", "A"}}, {{"del", "A"}}, {{"get", "A"}}, {{"list", ""}}, {{"add", "B"}, {"add", "A"}},
 		{{"add", "A"}, {"del", "A"}}, {{"del", "A"}, {"add", "A"}}, {{"add", "A"}, {"get", "A"}}, {{"add", "B"}, {"list", ""}},
 	}
 	for i, a := range pairs {
